@@ -526,6 +526,7 @@ func writeEvidence(rd *runData, prop, tier string, seed int, sel, discharged, kn
 	}
 	assumptions := assumptionsFor(prop)
 	assumptions = append(assumptions, "machine integers treated as mathematical integers (no overflow obligations) in: "+strings.Join(mathArith, ", "))
+	assumptions = append(assumptions, "unsigned 64-bit counters (store revisions, disconnect generations) are mathematical everywhere: a wrap-around after 2^64 increments is out of scope")
 	if len(au) > 0 {
 		assumptions = append(assumptions, "assumed (not verified) contracts of interfaces and library functions used by the functions under contract: "+strings.Join(au, ", "))
 	}
